@@ -110,6 +110,12 @@ def run(prog: Program, chk: Check):
     bad = guards.any_path_implies(gs.at(dec[0]), goal)
     V.decide(not bad, fkey(fj, "decode-under-version-guard"), where(fj, dcall), "decode dominated by the version guard",
              "the data segment can be decoded although the header carries a different non-zero version")
+    # ... and nothing is returned at all without that guard (a branch that builds the data object some other way,
+    # e.g. a signal fast path, must not bypass the refusal)
+    rets = [n for n in g.nodes if n.kind == "stmt" and isinstance(n.ast, ast.Return) and n.ast.value is not None]
+    badr = [n for n in rets if guards.any_path_implies(gs.at(n), goal)]
+    V.decide(bool(rets) and not badr, fkey(fj, "every-return-under-version-guard"), where(fj), "every return of from_json is dominated by the version guard",
+             "Message.from_json can return a message although the header carries a different non-zero version (a path bypasses the refusal): " + "; ".join(norm(n.ast) for n in badr))
     # and the refusal is not stronger than stated: version 0 and equal versions reach the decode
     rz = [n for n in g.nodes if n.kind == "stmt" and isinstance(n.ast, ast.Raise) and "InvalidMessageDefinition" in norm(n.ast)]
     okr = bool(rz)
